@@ -73,6 +73,17 @@ const ocrConfigEvent = `{"type": "ocr3config", "eventBlockNumber": %d, "comment"
  "maxRoundsPerEpoch": 7, "deltaProgress": "10s", "deltaResend": "10s", "deltaInitial": "300ms", "deltaRound": "500ms", "deltaGrace": "100ms",
  "deltaCertifiedCommitRequest": "200ms", "deltaStage": "20s", "maxQueryTime": "50ms", "maxObservationTime": "100ms", "maxShouldAcceptTime": "50ms", "maxShouldTransmitTime": "50ms"}`
 
+// jitterFor: legal jitters of every magnitude - none, a whole number of milliseconds, and less than a millisecond
+func jitterFor(cadence string) string {
+	switch cadence {
+	case "300ms":
+		return "500us"
+	case "400ms":
+		return "7ms"
+	}
+	return "0s"
+}
+
 func simPlans(t *testing.T, thorough bool) []simPlan {
 	// genesis chosen so that the run crosses a power of ten (block keys change length mid-run)
 	g := int64(99980)
@@ -80,8 +91,8 @@ func simPlans(t *testing.T, thorough bool) []simPlan {
 		return fmt.Sprintf(`{"node": {"totalNodeCount": 4, "maxNodeServiceWorkers": 100, "maxNodeServiceQueueSize": 1000},
  "p2pNetwork": {"maxLatency": "50ms"},
  "rpc": {"maxBlockDelay": 100, "averageLatency": 50, "errorRate": 0.0, "rateLimitThreshold": 1000},
- "blocks": {"genesisBlock": %d, "blockCadence": "%s", "durationInBlocks": %d, "endPadding": %d},
- "events": [`, g, cadence, duration, padding)
+ "blocks": {"genesisBlock": %d, "blockCadence": "%s", "blockCadenceJitter": "%s", "durationInBlocks": %d, "endPadding": %d},
+ "events": [`, g, cadence, jitterFor(cadence), duration, padding)
 	}
 	gens := func(expected string) string {
 		return fmt.Sprintf(`{"type": "generateUpkeeps", "eventBlockNumber": %d, "comment": "conditionals", "count": 3, "startID": 200, "eligibilityFunc": "40x - 30", "offsetFunc": "2x + 1", "upkeepType": "conditional", "expected": "%s"},
